@@ -48,8 +48,13 @@ def build(case):
     extra = {"max_connections": maxc}
     if case.get("retries"):
         extra["retries"] = case["retries"]
+    plans = {"v0": {"framing": "chunked", "chunks": [4], "body_len": 12, "h2_frames": [5]}}
+    if ctx == "reader-first":
+        # HTTP/2 only: an older stream is blocked reading (its answer comes only after the victim's request has arrived), so that what the server
+        # says during the victim's upload is read by ANOTHER flow of control
+        plans["s1"] = {"after_request": "v0", "body_len": 7, "h2_frames": [7]}
     pool_cfg, cfg, scheme = topo(kind, pool_extra=extra, h2=case.get("h2"),
-                                 plans={"v0": {"framing": "chunked", "chunks": [4], "body_len": 12, "h2_frames": [5]}},
+                                 plans=plans,
                                  hosts=("a.test", "b.test", "p0.test", "p1.test", "p2.test", "p3.test"))
     faults = [dict(f) for f in case.get("faults", [])]
     world = World(peer_factory=cfg.peer_factory, faults=faults)
@@ -68,6 +73,9 @@ def build(case):
         callers.append(Caller(1, [step_for(scheme, "b.test", "o1", "get")]))
     elif ctx == "sibling":
         callers.append(Caller(1, [step_for(scheme, "a.test", "s1", "get")]))
+    elif ctx == "reader-first":
+        callers.append(Caller(1, [step_for(scheme, "a.test", "s1", "get")]))
+        callers[1].start_first = True
     elif ctx == "sibling2":
         callers.append(Caller(1, [step_for(scheme, "a.test", "s1", "post2")]))
         callers.append(Caller(2, [step_for(scheme, "b.test", "o2", "get")]))
@@ -176,7 +184,8 @@ def run_case(case, record_sites=False):
     world, pool_cfg, callers, scheme, maxc = build(case)
     from ..trio_run import make_run
 
-    run = make_run(case.get("runtime"))(world, pool_cfg, callers, choices=case.get("choices", ()), segs=case.get("segs", ()), epilogue=epilogue)
+    run = make_run(case.get("runtime"))(world, pool_cfg, callers, choices=case.get("choices", ()), segs=case.get("segs", ()), epilogue=epilogue,
+                                               policy=case.get("policy"))
     run.scheme = scheme
     run.record_sites = record_sites
     run.result = {}
